@@ -27,6 +27,9 @@ Definition pmh_wf (h : pmh) : Prop :=
   p_b0 h <= u32_max /\ p_b1 h <= u32_max /\ p_b2 h <= u32_max /\ p_b3 h <= u32_max /\
   p_cz h <= 255 /\ p_c0 h <= u32_max /\ p_c1 h <= u32_max.
 
+Lemma pmh_serialize_length h : length (pmh_serialize h) = 127%nat.
+Proof. unfold pmh_serialize. rewrite !app_length, !le_length. reflexivity. Qed.
+
 Ltac tk := rewrite take_le_app by (cbn; lia); cbn [obind].
 
 Theorem pmh_roundtrip h : pmh_wf h -> length (pmh_serialize h) = 127%nat /\ pmh_deserialize (pmh_serialize h) = Ok h.
